@@ -966,6 +966,8 @@ func gen(g *core.G) {
 	genCache(g)
 	// file-based loading: the per-name instantiation lock
 	genFiles(g)
+	// nested lookups of a type-file instantiator (implementation only)
+	genNested(g)
 	// the declare / resolve queue
 	genDeclq(g)
 	// the runtime's lazily created system loader: first use after Reset by several goroutines at once (free-running)
